@@ -3,4 +3,4 @@
 # Always goes through bin/check so that the binary is rebuilt from /repo's current tree (never a stale seeded build).
 ID=$1; shift; TIERS=${@:-quick thorough}
 if [ -n "$(git -C /repo status --porcelain --untracked-files=no)" ]; then echo "repo dirty, refusing" >&2; exit 2; fi
-for t in $TIERS; do VERIF_EMIT_KNOWN=1 /verif/bin/check $ID $t --list-signatures | grep "^known:"; done | awk -F' :: ' '!seen[$1]++' | sort | cut -c1-600
+for t in $TIERS; do VERIF_EMIT_KNOWN=1 /verif/bin/check $ID $t --list-signatures | grep -a "^known:"; done | awk -F' :: ' '!seen[$1]++' | sort | cut -c1-600
